@@ -74,7 +74,7 @@ ENERGIES = [60e3, 80e3, 200e3, 300e3]
 def plan(tier, seed):
     rng = np.random.default_rng([seed, 4, 777])
     specs = []
-    reps = {"quick": {"batch": 20, "linear": 70, "recombine": 100, "closed_zero": 200, "closed_aberr": 600}, "thorough": {"batch": 150, "linear": 600, "recombine": 900, "closed_zero": 1500, "closed_aberr": 4500}}[tier]
+    reps = {"quick": {"batch": 20, "linear": 70, "recombine": 100, "closed_zero": 200, "closed_aberr": 600}, "thorough": {"batch": 600, "linear": 2400, "recombine": 3600, "closed_zero": 6000, "closed_aberr": 18000}}[tier]
 
     def common(kernel):
         names = KERNELS[kernel]
